@@ -64,7 +64,11 @@ func parseReaction(s string) reaction {
 				pc.delay, _ = strconv.ParseInt(p[i+1:], 10, 64)
 				p = p[:i]
 			}
-			pc.data = unhx(p)
+			if p == "z" { // a Read that returns (0, nil): allowed by io.Reader, never done by TCP for a non-empty buffer
+				pc.data = []byte{}
+			} else {
+				pc.data = unhx(p)
+			}
 			r.pieces = append(r.pieces, pc)
 		}
 	}
@@ -85,6 +89,9 @@ func reactionStr(r reaction) string {
 	var ps []string
 	for _, p := range r.pieces {
 		s := hx(p.data)
+		if p.data != nil && len(p.data) == 0 {
+			s = "z"
+		}
 		if p.delay != 0 {
 			s += "@" + strconv.FormatInt(p.delay, 10)
 		}
@@ -417,6 +424,7 @@ type sessionResult struct {
 	results []string
 	frames  [][]string // tcp mode: frames per connection as the device saw them
 	logtext string
+	levels  []int // the shared logger's level after every call (attach mode)
 }
 
 func runSession(sc sessionCase) sessionResult {
@@ -454,7 +462,10 @@ func runSession(sc sessionCase) sessionResult {
 		cl.VerifAttachConn(&scriptConn{j: 0, t: tr, script: sc.conns[0], budget: -1})
 	}
 	var res sessionResult
-	for _, call := range sc.calls {
+	for ci, call := range sc.calls {
+		if ci > 0 && sc.mode != "tcp" {
+			res.levels = append(res.levels, int(rscp.Log.GetLevel()))
+		}
 		if call == "disc" {
 			_ = cl.Disconnect()
 			res.results = append(res.results, "OK ()")
@@ -480,6 +491,9 @@ func runSession(sc sessionCase) sessionResult {
 		} else {
 			res.results = append(res.results, "OK "+sxs(rs))
 		}
+	}
+	if sc.mode != "tcp" {
+		res.levels = append(res.levels, int(rscp.Log.GetLevel()))
 	}
 	tr.mu.Lock()
 	res.events = append([]string{}, tr.ev...)
